@@ -3,7 +3,10 @@
 // Decoder: a run of 1..4 groups (distinct names, tests of a group consecutive) x 1..4 scripted tests; each test has a
 //          body and a teardown script of prints and FAIL(text) at a decoded (file, line); tests may be IGNORE_TESTs;
 //          optional package name; run-ignored on/off.  Names, paths, messages and printed text come from token tables
-//          weighted towards & < > " ' (messages / prints also CR, LF).
+//          weighted towards & < > " ' (messages / prints also CR, LF).  One string in ten is LONG: its length comes from a
+//          lattice around the powers of two (63..5000) or is random, and it is a run of one ordinary character, a cycling
+//          alphabet, a run of one markup character, an ordinary run with one markup character, or alternating blocks.
+//          A test may also fail by a real STRCMP_EQUAL of two long strings (message built by the framework).
 // Execution: a REAL run: TestRegistry::runAllTests over UtestShell / IgnoredUtestShell subclasses whose createTest()
 //          returns the scripted Utest; the output is a plain JUnitTestOutput; files are captured through the
 //          PlatformSpecificFOpen / FPuts / FClose seams (one capture per fopen).
@@ -13,6 +16,7 @@
 #include <expat.h>
 #include <memory>
 #include <deque>
+#include <algorithm>
 
 using verif::Reader;
 using verif::sfmt;
@@ -22,12 +26,12 @@ namespace {
 const char* const KEY_ATTR = "C16:attribute-value-unescaped";
 
 // ---------------------------------------------------------------- model of a case
-struct Step { int kind; std::string text, file; uint32_t line; };   // 0 print through the result, 1 UT_PRINT_LOCATION, 2 FAIL at (file,line)
+struct Step { int kind; std::string text, file; uint32_t line; std::string op2; };   // 0 print through the result, 1 UT_PRINT_LOCATION, 2 FAIL at (file,line), 3 STRCMP_EQUAL(text, op2) at (file,line)
 struct TestM { std::string name, file; uint32_t line = 1; bool ignored = false; std::vector<Step> body, teardown; };
 struct GroupM { std::string name; std::vector<TestM> tests; };
 struct CaseM { std::string package; bool runIgnored = false; std::vector<GroupM> groups; };
 
-struct FailM { std::string file; uint32_t line; std::string msg; };
+struct FailM { std::string file; uint32_t line; std::string msg; bool natural = false; std::string op2; size_t index = 0; };   // index: position among all failures of the run
 struct TestSim { bool executed = false; std::vector<std::string> prints; std::vector<FailM> fails; };
 
 // ---------------------------------------------------------------- generator tables
@@ -50,8 +54,40 @@ void add_class(Reader& r, std::string& s, uint32_t cls, uint32_t n) {
     case 3: for (uint32_t i = 0; i < n; i++) s.push_back((char)(0x20 + r.below(95))); break;
     }
 }
+// ---- long strings: the code imposes no length limit, so neither does the generator
+const uint32_t LENS[] = {0, 1, 2, 63, 64, 65, 127, 128, 129, 255, 256, 257, 511, 512, 1000, 4095, 4096, 5000};
+const char ORDINARY[] = "abcdefghijklmnopqrstuvwxyz0123456789ABCDEFGHIJKLMNOPQRSTUVWXYZ_ .,:;/\\-+*=()#%!?$@^~{}`|[]";   // no XML meaning
+std::string gen_long(Reader& r, const char* specials, uint32_t minlen, bool plainOnly) {
+    uint32_t li = r.below(24);
+    uint32_t len = li < 18 ? LENS[li] : r.below(5001);
+    if (len < minlen) len = minlen;
+    size_t nsp = strlen(specials), nord = plainOnly ? 63 : sizeof ORDINARY - 1;
+    uint32_t shape = r.below(6);
+    if (nsp == 0 && shape >= 2) shape &= 1;
+    std::string s;
+    s.reserve(len);
+    switch (shape) {
+    default:
+    case 0: { char ch = ORDINARY[r.below((uint32_t)nord)]; s.assign(len, ch); break; }
+    case 1: { uint32_t off = r.below((uint32_t)nord); for (uint32_t i = 0; i < len; i++) s.push_back(ORDINARY[(off + i) % nord]); break; }
+    case 2: { char ch = specials[r.below((uint32_t)nsp)]; s.assign(len, ch); break; }
+    case 3: {
+        char ch = ORDINARY[r.below(36)]; s.assign(len, ch);
+        if (len) { uint32_t pv = r.below(4); uint32_t pos = pv == 0 ? len - 1 : (pv == 1 ? len / 2 : (pv == 2 ? 0 : r.below(len > 65536 ? 65536 : len))); s[pos] = specials[r.below((uint32_t)nsp)]; }
+        break; }
+    case 4: {
+        static const uint32_t BL[] = {1, 2, 63, 64, 126, 127, 128, 129, 255, 256};
+        uint32_t bl = r.pick(BL); char sp = specials[r.below((uint32_t)nsp)]; char ch = ORDINARY[r.below(36)];
+        for (uint32_t i = 0; i < len; i++) s.push_back((i % (bl + 1)) == bl ? sp : ch);
+        break; }
+    case 5: { for (uint32_t i = 0; i < len; i++) s.push_back(i % 2 ? specials[(i / 2) % nsp] : ORDINARY[(i / 2) % nord]); break; }
+    }
+    return s;
+}
+
 // a non-empty name or path; `style` is the case-wide ceiling: 0 plain only, 1 plain/safe, 2 everything
 std::string gen_name(Reader& r, uint32_t style, uint32_t maxtok) {
+    if (r.below(10) == 9) return gen_long(r, style == 0 ? "" : (style == 1 ? "'>" : "&<>\"'"), 1, style == 0);
     uint32_t cls = 0;
     if (style == 1) cls = r.below(2);
     else if (style == 2) cls = r.below(4);
@@ -61,6 +97,7 @@ std::string gen_name(Reader& r, uint32_t style, uint32_t maxtok) {
 }
 // failure messages and printed text: any length including empty, line breaks mixed in
 std::string gen_text(Reader& r, uint32_t maxtok) {
+    if (r.below(10) == 9) return gen_long(r, "&<>\"'\r\n", 0, false);
     uint32_t cls = r.below(4);          // 0 plain, 1 markup, 2 markup + breaks, 3 printable + breaks
     uint32_t n = r.below(maxtok + 1);
     std::string s;
@@ -74,12 +111,27 @@ const uint32_t LINES[] = {1, 2, 10, 42, 999, 4096, 65535, 100000};
 
 Step gen_step(Reader& r, const TestM& t, const std::string& groupFile, uint32_t style) {
     Step s;
-    uint32_t k = r.below(4);
-    s.kind = k == 0 ? 0 : (k == 1 ? 1 : 2);
+    uint32_t k = r.below(9);   // 0,1 print; 2,3 UT_PRINT; 4..7 FAIL; 8 STRCMP_EQUAL of two (mostly long) strings
+    s.kind = k <= 1 ? 0 : (k <= 3 ? 1 : (k <= 7 ? 2 : 3));
+    if (s.kind == 3) {
+        static const uint32_t OL[] = {200, 127, 128, 255, 256, 1000, 3000, 20};
+        uint32_t len = r.pick(OL);
+        uint32_t shape = r.below(3);
+        if (shape == 0) s.text.assign(len, ORDINARY[r.below(36)]);
+        else if (shape == 1) for (uint32_t i = 0; i < len; i++) s.text.push_back(ORDINARY[i % (sizeof ORDINARY - 1)]);
+        else for (uint32_t i = 0; i < len; i++) s.text.push_back((i % 50) == 49 ? "&<>\"'\r\n"[(i / 50) % 7] : ORDINARY[i % 36]);
+        s.op2 = s.text;
+        switch (r.below(3)) {
+        default:
+        case 0: s.op2 += "X"; break;
+        case 1: { uint32_t pos = r.below(len); s.op2[pos] = s.op2[pos] == '#' ? '%' : '#'; break; }
+        case 2: s.op2 = s.op2.substr(0, len / 2); break;
+        }
+    } else
     s.text = gen_text(r, s.kind == 2 ? 8 : 10);
     s.file = t.file; s.line = t.line;
     if (s.kind == 1) { s.line = t.line + 1 + r.below(9); }
-    if (s.kind == 2) {
+    if (s.kind >= 2) {
         switch (r.below(3)) { default: case 0: break; case 1: s.file = gen_name(r, style, 6); break; case 2: s.file = groupFile; break; }
         switch (r.below(4)) {
         default:
@@ -142,7 +194,7 @@ TestSim simulate(const CaseM& c, const TestM& t) {
     if (!s.executed) return s;
     for (int phase = 0; phase < 2; phase++)
         for (auto& st : phase == 0 ? t.body : t.teardown) {
-            if (st.kind == 2) { s.fails.push_back({st.file, st.line, st.text}); break; }
+            if (st.kind >= 2) { FailM f; f.file = st.file; f.line = st.line; f.msg = st.text; f.natural = st.kind == 3; f.op2 = st.op2; s.fails.push_back(f); break; }
             s.prints.push_back(st.text);
         }
     return s;
@@ -155,7 +207,8 @@ void run_steps(const std::vector<Step>& steps) {
     for (auto& st : steps) {
         if (st.kind == 0) g_result->print(st.text.c_str());
         else if (st.kind == 1) UtestShell::getCurrent()->print(st.text.c_str(), st.file.c_str(), st.line);      // UT_PRINT_LOCATION
-        else UtestShell::getCurrent()->fail(st.text.c_str(), st.file.c_str(), st.line);                          // FAIL_TEXT at a location; leaves the phase
+        else if (st.kind == 2) UtestShell::getCurrent()->fail(st.text.c_str(), st.file.c_str(), st.line);        // FAIL_TEXT at a location; leaves the phase
+        else UtestShell::getCurrent()->assertCstrEqual(st.text.c_str(), st.op2.c_str(), NULLPTR, st.file.c_str(), st.line);   // STRCMP_EQUAL_LOCATION; leaves the phase
     }
 }
 struct ScriptedTest : Utest {
@@ -196,6 +249,12 @@ void cap_fclose(PlatformSpecificFile f) {
 }
 void cap_flush() {}
 
+// the failure texts handed to the output (its input), in order
+std::vector<std::string> g_messages;
+struct RecordingJUnit : JUnitTestOutput {
+    void printFailure(const TestFailure& f) CPPUTEST_OVERRIDE { g_messages.push_back(f.getMessage().asCharString()); JUnitTestOutput::printFailure(f); }
+};
+
 void execute(const CaseM& c) {
     g_files.clear(); g_stray_puts = 0; g_stray_close = 0;
     verif::fake_millis_value = 0;
@@ -205,7 +264,8 @@ void execute(const CaseM& c) {
             if (t.ignored) shells.emplace_back(new IgnoredShell(g.name.c_str(), &t));
             else shells.emplace_back(new Shell(g.name.c_str(), &t));
         }
-    JUnitTestOutput out;
+    g_messages.clear();
+    RecordingJUnit out;
     if (!c.package.empty()) out.setPackageName(c.package.c_str());
     TestResult result(out);
     TestRegistry reg;
@@ -253,7 +313,18 @@ bool parse_xml(const std::string& data, Doc& doc, std::string& err) {
 }
 
 bool has_any(const std::string& s, const char* set) { return s.find_first_of(set) != std::string::npos; }
-std::string P(const std::string& s) { return verif::printable(s).substr(0, 300); }
+std::string P(const std::string& s) {
+    if (s.size() <= 160) return verif::printable(s);
+    return verif::printable(s.substr(0, 70)) + verif::sfmt("...(%zu chars)...", s.size()) + verif::printable(s.substr(s.size() - 40));
+}
+// where two texts part: lengths, position, and the surroundings of the first difference
+std::string D(const std::string& got, const std::string& want) {
+    size_t i = 0;
+    while (i < got.size() && i < want.size() && got[i] == want[i]) i++;
+    size_t from = i > 24 ? i - 24 : 0;
+    return verif::sfmt("lengths %zu / %zu, first difference at offset %zu: got \"..%s\" expected \"..%s\"", got.size(), want.size(), i,
+                       verif::printable(got.substr(from, 60)).c_str(), verif::printable(want.substr(from, 60)).c_str());
+}
 
 std::string expected_file_name(const CaseM& c, const GroupM& g) {
     std::string n = "cpputest_";
@@ -271,8 +342,9 @@ std::string render(const CaseM& c) {
             o += sfmt(" %s(\"%s\" @\"%s\":%u", t.ignored ? "IGNORE_TEST" : "TEST", P(t.name).c_str(), P(t.file).c_str(), t.line);
             for (int ph = 0; ph < 2; ph++)
                 for (auto& s : ph == 0 ? t.body : t.teardown)
-                    o += sfmt(" %s%s(\"%s\"%s)", ph ? "teardown:" : "", s.kind == 0 ? "print" : (s.kind == 1 ? "UT_PRINT" : "FAIL"), P(s.text).c_str(),
-                              s.kind == 2 ? sfmt(" @\"%s\":%u", P(s.file).c_str(), s.line).c_str() : "");
+                    o += sfmt(" %s%s(\"%s\"%s)", ph ? "teardown:" : "", s.kind == 0 ? "print" : (s.kind == 1 ? "UT_PRINT" : (s.kind == 2 ? "FAIL" : "STRCMP_EQUAL")),
+                              (s.kind == 3 ? P(s.text) + "\", \"" + P(s.op2) : P(s.text)).c_str(),
+                              s.kind >= 2 ? sfmt(" @\"%s\":%u", P(s.file).c_str(), s.line).c_str() : "");
             o += ")";
         }
         o += " }";
@@ -289,16 +361,18 @@ int judge_file(const CaseM& c, const GroupM& g, const std::vector<TestSim>& sims
         // show the offending line
         std::string line; { size_t ln = 1, i = 0; unsigned long want = 0; sscanf(err.c_str() + err.find("line ") + 5, "%lu", &want);
             for (; i < cap.data.size() && ln < want; i++) if (cap.data[i] == '\n') ln++;
-            size_t e = cap.data.find('\n', i); line = cap.data.substr(i, e == std::string::npos ? std::string::npos : e - i); }
-        JF(false, "C16:not-well-formed", "expat rejects %s (group \"%s\"): %s: %s", cap.name.c_str(), P(g.name).c_str(), err.c_str(), P(line).c_str());
+            size_t e = cap.data.find('\n', i); line = cap.data.substr(i, e == std::string::npos ? std::string::npos : e - i);
+            unsigned long col = 0; size_t cp = err.find("column "); if (cp != std::string::npos) sscanf(err.c_str() + cp + 7, "%lu", &col);
+            if (line.size() > 200) line = ".." + line.substr(col > 80 ? col - 80 : 0, 160) + ".."; }
+        JF(false, "C16:not-well-formed", "expat rejects %s (group \"%s\"): %s: %s", P(cap.name).c_str(), P(g.name).c_str(), err.c_str(), verif::printable(line).c_str());
     }
     const Node* suite = doc.root;
-    JF(suite && suite->name == "testsuite", "C16:suite-element", "root element of %s is <%s>, expected <testsuite>", cap.name.c_str(), suite ? suite->name.c_str() : "");
+    JF(suite && suite->name == "testsuite", "C16:suite-element", "root element of %s is <%s>, expected <testsuite>", P(cap.name).c_str(), suite ? suite->name.c_str() : "");
     size_t nfailed = 0;
     for (auto& s : sims) if (!s.fails.empty()) nfailed++;
     const std::string* a;
     a = suite->attr("name");
-    JF(a && *a == g.name, "C16:suite-name", "testsuite@name is \"%s\", group is \"%s\"", a ? P(*a).c_str() : "(absent)", P(g.name).c_str());
+    JF(a && *a == g.name, "C16:suite-name", "testsuite@name is \"%s\", group is \"%s\" (%s)", a ? P(*a).c_str() : "(absent)", P(g.name).c_str(), a ? D(*a, g.name).c_str() : "");
     a = suite->attr("tests");
     JF(a && *a == std::to_string(g.tests.size()), "C16:suite-tests", "testsuite@tests is \"%s\" for group \"%s\" with %zu tests", a ? P(*a).c_str() : "(absent)", P(g.name).c_str(), g.tests.size());
     a = suite->attr("failures");
@@ -309,11 +383,11 @@ int judge_file(const CaseM& c, const GroupM& g, const std::vector<TestSim>& sims
     for (size_t i = 0; i < cases.size(); i++) {
         const Node* tc = cases[i]; const TestM& t = g.tests[i]; const TestSim& s = sims[i];
         a = tc->attr("name");
-        JF(a && *a == t.name, "C16:testcase-name", "testcase #%zu of group \"%s\": name \"%s\", expected \"%s\"", i, P(g.name).c_str(), a ? P(*a).c_str() : "(absent)", P(t.name).c_str());
+        JF(a && *a == t.name, "C16:testcase-name", "testcase #%zu of group \"%s\": name \"%s\", expected \"%s\" (%s)", i, P(g.name).c_str(), a ? P(*a).c_str() : "(absent)", P(t.name).c_str(), a ? D(*a, t.name).c_str() : "");
         a = tc->attr("classname");
-        JF(a && *a == classname, "C16:testcase-classname", "testcase \"%s\": classname \"%s\", expected \"%s\"", P(t.name).c_str(), a ? P(*a).c_str() : "(absent)", P(classname).c_str());
+        JF(a && *a == classname, "C16:testcase-classname", "testcase \"%s\": classname \"%s\", expected \"%s\" (%s)", P(t.name).c_str(), a ? P(*a).c_str() : "(absent)", P(classname).c_str(), a ? D(*a, classname).c_str() : "");
         a = tc->attr("file");
-        JF(a && *a == t.file, "C16:testcase-file", "testcase \"%s\": file \"%s\", expected \"%s\"", P(t.name).c_str(), a ? P(*a).c_str() : "(absent)", P(t.file).c_str());
+        JF(a && *a == t.file, "C16:testcase-file", "testcase \"%s\": file \"%s\", expected \"%s\" (%s)", P(t.name).c_str(), a ? P(*a).c_str() : "(absent)", P(t.file).c_str(), a ? D(*a, t.file).c_str() : "");
         a = tc->attr("line");
         JF(a && *a == std::to_string(t.line), "C16:testcase-line", "testcase \"%s\": line \"%s\", expected %u", P(t.name).c_str(), a ? P(*a).c_str() : "(absent)", t.line);
         size_t nskip = tc->children("skipped").size();
@@ -324,15 +398,22 @@ int judge_file(const CaseM& c, const GroupM& g, const std::vector<TestSim>& sims
         JF(fl.size() == (s.fails.empty() ? 0u : 1u), "C16:failure-element", "testcase \"%s\" with %zu failures: %zu <failure> elements", P(t.name).c_str(), s.fails.size(), fl.size());
         if (!fl.empty()) {
             const FailM& f = s.fails[0];
-            std::string want = f.file + ":" + std::to_string(f.line) + ": " + f.msg;
+            // a failure produced by a real check: the text the framework handed to the output is the original.  It contains tabs
+            // ("\n\tbut was"), which are outside the statement's alphabet: a parser turns a literal tab in an attribute into a space.
+            std::string text = f.msg;
+            if (f.natural && f.index < g_messages.size()) text = g_messages[f.index];
+            std::string want = f.file + ":" + std::to_string(f.line) + ": " + text;
             a = fl[0]->attr("message");
-            JF(a && *a == want, "C16:failure-message", "testcase \"%s\": failure message decodes to \"%s\", expected \"%s\"", P(t.name).c_str(), a ? P(*a).c_str() : "(absent)", P(want).c_str());
+            std::string got = a ? *a : "";
+            if (f.natural) { for (auto& ch : want) if (ch == '\t') ch = ' '; for (auto& ch : got) if (ch == '\t') ch = ' '; }
+            JF(a && got == want, "C16:failure-message", "testcase \"%s\": failure message decodes to \"%s\", expected \"%s\" (%s)", P(t.name).c_str(), a ? P(got).c_str() : "(absent)", P(want).c_str(),
+               D(got, want).c_str());
         }
     }
     auto so = suite->children("system-out");
     bool anyPrint = false;
     for (auto& s : sims) for (auto& p : s.prints) if (!p.empty()) anyPrint = true;
-    JF(so.size() == 1 || (so.empty() && !anyPrint), "C16:system-out", "%zu <system-out> elements in %s", so.size(), cap.name.c_str());
+    JF(so.size() == 1 || (so.empty() && !anyPrint), "C16:system-out", "%zu <system-out> elements in %s", so.size(), P(cap.name).c_str());
     if (!so.empty()) {
         const std::string& text = so[0]->text;
         size_t pos = 0;
@@ -372,6 +453,23 @@ int run_and_judge(const CaseM& c, bool useKnown, Verdict& v) {
         if (gf) groupsWithFailure++;
     }
     v.nontrivial = markupSeen || groupsWithFailure >= 2;
+    {
+        size_t idx = 0, longest = c.package.size();
+        for (size_t gi = 0; gi < c.groups.size(); gi++) {
+            longest = std::max(longest, c.groups[gi].name.size());
+            for (size_t ti = 0; ti < c.groups[gi].tests.size(); ti++) {
+                const TestM& t = c.groups[gi].tests[ti];
+                longest = std::max(longest, std::max(t.name.size(), t.file.size()));
+                for (auto& f : sims[gi][ti].fails) {
+                    f.index = idx++;
+                    longest = std::max(longest, std::max(f.file.size(), std::max(f.msg.size(), f.op2.size())));
+                    if (f.natural) verif::cls("failure:natural-STRCMP");
+                }
+                for (auto& p : sims[gi][ti].prints) longest = std::max(longest, p.size());
+            }
+        }
+        verif::cls(longest >= 4096 ? "longest-string:4096+" : (longest >= 512 ? "longest-string:512..4095" : (longest >= 128 ? "longest-string:128..511" : (longest >= 64 ? "longest-string:64..127" : "longest-string:<64"))));
+    }
     verif::cls(sfmt("groups:%zu", c.groups.size()).c_str());
     if (!c.package.empty()) verif::cls("package");
     if (groupsWithFailure >= 2) verif::cls("failures-in-2+-groups");
@@ -384,7 +482,7 @@ int run_and_judge(const CaseM& c, bool useKnown, Verdict& v) {
     for (size_t k = 0; k < c.groups.size(); k++) {
         const GroupM& g = c.groups[k]; const Cap& cap = *g_files[k];
         std::string want = expected_file_name(c, g);
-        V_CHECK(cap.name == want, "C16:file-name", "file #%zu is named \"%s\"; group \"%s\" package \"%s\" should give \"%s\"", k, P(cap.name).c_str(), P(g.name).c_str(), P(c.package).c_str(), P(want).c_str());
+        V_CHECK(cap.name == want, "C16:file-name", "file #%zu is named \"%s\"; group \"%s\" package \"%s\" should give \"%s\" (%s)", k, P(cap.name).c_str(), P(g.name).c_str(), P(c.package).c_str(), P(want).c_str(), D(cap.name, want).c_str());
         V_CHECK(!cap.open && cap.closes == 1, "C16:file-not-closed", "file \"%s\" closed %d times", P(cap.name).c_str(), cap.closes);
         for (size_t j = 0; j < k; j++) if (g_files[j]->name == cap.name) sameName = true;
         // strings that the writer places inside attribute values
